@@ -174,6 +174,23 @@ fn check_spec(r: &RefSpec, way: Way) -> Result<bool, Fail> {
     })?;
     let gate = log::max_level();
     let mut differs_from_default = false;
+    // with a text filter: before every probe a record whose message panics after part of its
+    // text (the panic is caught, as thread pools do) - what it leaves behind must not influence
+    // how the next record of this thread is matched
+    struct Bomb;
+    impl std::fmt::Display for Bomb {
+        fn fmt(&self, f: &mut std::fmt::Formatter<'_>) -> std::fmt::Result {
+            write!(f, "x y ")?;
+            std::panic::resume_unwind(Box::new("scenario: Display panics"));
+        }
+    }
+    let bomb = |t: &str| {
+        if r.regex.is_some() {
+            let _ = std::panic::catch_unwind(std::panic::AssertUnwindSafe(|| {
+                logger.log(&log::Record::builder().args(format_args!("{}", Bomb)).level(log::Level::Error).target(t).module_path(Some(t)).build());
+            }));
+        }
+    };
     for t in TARGETS {
         for l in LEVELS {
             let want_enabled = r.enabled(l, t);
@@ -206,7 +223,9 @@ fn check_spec(r: &RefSpec, way: Way) -> Result<bool, Fail> {
                 }
             }
             for m in MSGS {
+                bomb(t);
                 rec.take();
+                extra.take();
                 asked.lock().unwrap().clear();
                 lg::log_to(&*logger, l, t, m);
                 let written = rec.take().len();
